@@ -1,13 +1,29 @@
 import Cactus.Lemmas.Basic
+import Cactus.Lemmas.NoRevive
 /-!
-# C16 — cloning a handle to a destroyed object aborts; dropping it has no effect
+# C16 — cloning a handle to a destroyed object aborts; dropping it has no effect; the object's
+count is never revived
 
-What is proved here (the property is about single calls, so these are statements about one call in
-an arbitrary state):
-* `C16_clone_dead_aborts`, `C16_cloneField_dead_aborts` (the only way safe code can clone such a
-  handle: a destructor cloning one of its own fields), `C16_abort_is_final`, `C16_drop_dead_noop`;
+What is proved here:
+* about single calls, in an arbitrary state: `C16_clone_dead_aborts`, `C16_cloneField_dead_aborts`
+  (the only way safe code can clone such a handle: a destructor cloning one of its own fields),
+  `C16_abort_is_final`, `C16_drop_dead_noop`;
 * example: both situations inside a real group teardown (a destructor that clones its handle to an
-  already dead peer; the drop glue dropping a handle to an already dead peer).
+  already dead peer; the drop glue dropping a handle to an already dead peer);
+* about whole histories (last section, "Whole histories: no resurrection"; lemmas in
+  `Lemmas/NoRevive.lean`): no transition of the machine — machine step, user-level action at top
+  level or inside a destructor, operation start, operation boundary, failure — makes a dead
+  (destroyed or released) object live again, from an *arbitrary* state (no invariant, no contract,
+  whatever the error field): `C16_dead_stays_dead_step`, `C16_dead_stays_dead_action`; hence along
+  any execution (`Later`, the reflexive-transitive closure of the transitions that generate
+  `Reachable`) and for `run`: `C16_dead_stays_dead_later`, `C16_dead_stays_dead`; a released
+  allocation stays released and its index is never reused: `C16_released_stays_released`,
+  `C16_new_is_fresh`; a moved-out value is never put back: `C16_destroyed_value_stays_out`; the
+  event log only grows, so a `destroyed` event stays: `C16_log_only_grows`; a `Weak` to an object
+  that was dead at some earlier point of the history never upgrades (C05 over whole histories):
+  `C16_upgrade_after_death`;
+* example: a ring is collected, six more operations run (`new`, `clone`, `upgrade` of a Weak to a
+  dead member, `new`, `link`, `upgrade`), by evaluation and by the theorems.
 Not proved: that `abort` is what the real process does is observed by the harness (subprocess exit
 status).
 -/
@@ -116,5 +132,182 @@ example : (step cloneDeadMid7).err = some .abort
     ∧ (run (cloneDeadBuild ++ [(.act (.drop 0), [1, 0])])).log
         = [.traced 1 2 3, .traced 0 2 3, .destroyed 1, .destroyed 0] := by
   decide +kernel
+
+/-! ## Whole histories: no resurrection
+
+`s.isLive o = false` with `o < s.heap.length` says: allocation `o` exists and is dead (its strong
+cell is `0` or the `uninit` sentinel: its value has been or is being destroyed) or already released.
+The statements below need no hypothesis on the state: no invariant, no adoption contract, and the
+error field may be anything. -/
+
+/-- one machine step (library code, or one action of a running destructor) revives nothing, and
+the index stays allocated -/
+theorem C16_dead_stays_dead_step (s : State) (o : Nat) (ho : o < s.heap.length)
+    (hd : s.isLive o = false) :
+    o < (step s).heap.length ∧ (step s).isLive o = false :=
+  ⟨Nat.lt_of_lt_of_le ho (step_heap_length s), step_isLive_false s o ho hd⟩
+
+/-- no user-level action, at top level or inside a destructor with fields `fh`/`fw`, revives
+anything (`clone`, `upgrade`, `fromRaw`, `incStrong`, `cloneField`, `upgradeField`, `makeMut`, …) -/
+theorem C16_dead_stays_dead_action (s : State) (fh fw : List Nat) (a : Act) (o : Nat)
+    (ho : o < s.heap.length) (hd : s.isLive o = false) :
+    o < (applyAct s fh fw a).heap.length ∧ (applyAct s fh fw a).isLive o = false :=
+  ⟨Nat.lt_of_lt_of_le ho (applyAct_heap_length s fh fw a), applyAct_isLive_false s fh fw a o ho hd⟩
+
+/-- the remaining transitions: start of an operation (any operation, any layout hint), the
+operation boundary, any failure -/
+theorem C16_dead_stays_dead_op (s : State) (op : Op) (hint : List Nat) (e : Err) (o : Nat)
+    (ho : o < s.heap.length) (hd : s.isLive o = false) :
+    (o < (applyOp (s.begin hint) op).heap.length ∧ (applyOp (s.begin hint) op).isLive o = false)
+      ∧ (o < (endOp s).heap.length ∧ (endOp s).isLive o = false)
+      ∧ (o < (s.fail e).heap.length ∧ (s.fail e).isLive o = false) :=
+  ⟨⟨Nat.lt_of_lt_of_le ho (applyOp_heap_length (s.begin hint) op),
+      applyOp_isLive_false (s.begin hint) op o ho (hint_isLive_false s hint o hd)⟩,
+    ⟨Nat.lt_of_lt_of_le ho (endOp_heap_length s), endOp_isLive_false s o ho hd⟩,
+    ⟨Nat.lt_of_lt_of_le ho (fail_heap_length s e), fail_isLive_false s e o hd⟩⟩
+
+/-- along any execution: if `t` is later than `s` (`Later`: any sequence of operation starts,
+machine steps, operation boundaries and out-of-fuel failures leads from `s` to `t`) then an object
+that is dead in `s` is dead in `t` -/
+theorem C16_dead_stays_dead_later {s t : State} (h : Later s t) (o : Nat) (ho : o < s.heap.length)
+    (hd : s.isLive o = false) :
+    o < t.heap.length ∧ t.isLive o = false :=
+  later_isLive_false h ho hd
+
+/-- every reachable state is later than the initial state, and the state after a history is later
+than the state after any prefix of it: `Later` covers all executions -/
+theorem C16_later_covers (s : State) (hr : Reachable s) (ops1 ops2 : List (Op × List Nat)) :
+    Later {} s ∧ Later (run ops1) (run (ops1 ++ ops2)) :=
+  ⟨Later.of_reachable hr, later_run_append ops1 ops2⟩
+
+/-- histories: an object dead after `ops1` is dead after `ops1 ++ ops2`, whatever `ops2` is -/
+theorem C16_dead_stays_dead (ops1 ops2 : List (Op × List Nat)) (o : Nat)
+    (ho : o < (run ops1).heap.length) (hd : (run ops1).isLive o = false) :
+    (run (ops1 ++ ops2)).isLive o = false :=
+  run_isLive_false ops1 ops2 o ho hd
+
+/-- a released allocation stays released along any execution (the `freed` flag is never cleared) -/
+theorem C16_released_stays_released {s t : State} (h : Later s t) (o : Nat) (ob : Obj)
+    (hg : s.heap[o]? = some ob) (hf : ob.freed = true) :
+    ∃ ob', t.heap[o]? = some ob' ∧ ob'.freed = true :=
+  later_freed h hg hf
+
+/-- … and its index is never handed out again: `Rc::new` returns the first index past the heap and
+leaves every existing allocation as it is -/
+theorem C16_new_is_fresh (s : State) (fh fw : List Nat) :
+    (applyAct s fh fw .new).roots = s.roots ++ [s.heap.length]
+      ∧ (applyAct s fh fw .new).heap.length = s.heap.length + 1
+      ∧ ∀ o, o < s.heap.length → (applyAct s fh fw .new).heap[o]? = s.heap[o]? := by
+  refine ⟨rfl, by simp [applyAct, State.alloc], ?_⟩
+  intro o ho
+  simp [applyAct, State.alloc, List.getElem?_append_left ho]
+
+/-- the value of a destroyed object, once moved out, is never put back; the dead strong cell stays
+dead also while Weak handles keep the allocation -/
+theorem C16_destroyed_value_stays_out {s t : State} (h : Later s t) (o : Nat) (ob : Obj)
+    (hg : s.heap[o]? = some ob) :
+    (ob.value = none → ∃ ob', t.heap[o]? = some ob' ∧ ob'.value = none)
+      ∧ (ob.strong.isDead = true → ∃ ob', t.heap[o]? = some ob' ∧ ob'.strong.isDead = true) :=
+  ⟨later_value_none h hg, later_dead h hg⟩
+
+/-- the event log only grows: the log after `ops1` is a prefix of the log after `ops1 ++ ops2`, so a
+`destroyed v` (or `freed o`) event, once there, stays, in place -/
+theorem C16_log_only_grows (ops1 ops2 : List (Op × List Nat)) :
+    (run ops1).log <+: (run (ops1 ++ ops2)).log
+      ∧ (run ops1).destroyedVids <+: (run (ops1 ++ ops2)).destroyedVids
+      ∧ (run ops1).freedIds <+: (run (ops1 ++ ops2)).freedIds :=
+  ⟨run_log_prefix ops1 ops2, run_destroyedVids_prefix ops1 ops2,
+    later_freedIds_prefix (later_run_append ops1 ops2)⟩
+
+/-- C05 over whole histories: if `o` was dead at some point `s` of an execution then at every
+later point `t` upgrading a Weak to `o` (the allocation still being held by that Weak) returns
+`None` and changes nothing but the log -/
+theorem C16_upgrade_after_death {s t : State} (h : Later s t) (o : Nat) (ho : o < s.heap.length)
+    (hd : s.isLive o = false) (fh fw : List Nat) (w : Nat) (ob' : Obj)
+    (hw : nthMod t.wroots w = some o) (hc : t.cell o = some ob') :
+    applyAct t fh fw (.upgrade w) = t.emit (retBool false) := by
+  have hdead : ob'.strong.isDead = true := State.Grow.cell_dead h.grow ho hd hc
+  simp only [applyAct, hw, hc, hdead, if_true]
+
+/-! ### Non-vacuity: a collected ring, then six more operations
+
+`0 ↔ 1` built with `link`, a Weak to member 0 kept by the program; the last `drop` collects the
+ring: both values destroyed, allocation 1 released, allocation 0 kept by the Weak. -/
+
+def ringThenDead : List (Op × List Nat) :=
+  [(.act .new, []), (.act .new, []),
+   (.act (.clone 1), []), (.act (.link 2 0), []),       -- 0 → 1
+   (.act (.clone 0), []), (.act (.link 2 1), []),       -- 1 → 0
+   (.act (.downgrade 0), []),                           -- Weak to 0
+   (.act (.drop 1), []), (.act (.drop 0), [])]          -- the second drop collects the ring
+
+/-- six further operations, among them `upgrade` of the Weak to the dead member 0 (twice) -/
+def afterDeath : List (Op × List Nat) :=
+  [(.act .new, []), (.act (.clone 0), []), (.act (.upgrade 0), []),
+   (.act .new, []), (.act (.link 2 0), []), (.act (.upgrade 0), [])]
+
+/-- by evaluation: after the collection both members are dead (0 still allocated, 1 released) -/
+example : (run ringThenDead).err = none
+    ∧ (run ringThenDead).heap.length = 2
+    ∧ (run ringThenDead).isLive 0 = false ∧ (run ringThenDead).isLive 1 = false
+    ∧ (run ringThenDead).heap.map (·.strong) = [.uninit, .uninit]
+    ∧ (run ringThenDead).heap.map (·.freed) = [false, true]
+    ∧ (run ringThenDead).wroots = [0]
+    ∧ (run ringThenDead).log
+        = [.traced 1 2 3, .traced 0 2 3, .destroyed 1, .destroyed 0, .freed 1] := by
+  decide +kernel
+
+/-- by evaluation: after the six further operations the history is still inside the contract, the
+members are still dead, both `upgrade`s returned `None` (`ret 0`), the two new objects got the fresh
+indices 2 and 3, and the old log is a prefix of the new one -/
+example : (run (ringThenDead ++ afterDeath)).err = none
+    ∧ (run (ringThenDead ++ afterDeath)).isLive 0 = false
+    ∧ (run (ringThenDead ++ afterDeath)).isLive 1 = false
+    ∧ (run (ringThenDead ++ afterDeath)).heap.map (·.strong) = [.uninit, .uninit, .cnt 2, .cnt 1]
+    ∧ (run (ringThenDead ++ afterDeath)).heap.map (·.freed) = [false, true, false, false]
+    ∧ (run (ringThenDead ++ afterDeath)).roots = [2, 2]
+    ∧ (run (ringThenDead ++ afterDeath)).log
+        = [.traced 1 2 3, .traced 0 2 3, .destroyed 1, .destroyed 0, .freed 1, .ret 0, .ret 0] := by
+  decide +kernel
+
+/-- the same by the theorems: the hypotheses of `C16_dead_stays_dead` hold for both members -/
+example : (run (ringThenDead ++ afterDeath)).isLive 0 = false
+    ∧ (run (ringThenDead ++ afterDeath)).isLive 1 = false :=
+  ⟨C16_dead_stays_dead ringThenDead afterDeath 0 (by decide +kernel) (by decide +kernel),
+   C16_dead_stays_dead ringThenDead afterDeath 1 (by decide +kernel) (by decide +kernel)⟩
+
+/-- … for *any* continuation, not only this one -/
+example (ops2 : List (Op × List Nat)) :
+    (run (ringThenDead ++ ops2)).isLive 0 = false ∧ (run (ringThenDead ++ ops2)).isLive 1 = false
+      ∧ [Ev.traced 1 2 3, .traced 0 2 3, .destroyed 1, .destroyed 0, .freed 1]
+          <+: (run (ringThenDead ++ ops2)).log
+      ∧ ∃ ob', (run (ringThenDead ++ ops2)).heap[1]? = some ob' ∧ ob'.freed = true := by
+  refine ⟨C16_dead_stays_dead ringThenDead ops2 0 (by decide +kernel) (by decide +kernel),
+    C16_dead_stays_dead ringThenDead ops2 1 (by decide +kernel) (by decide +kernel), ?_, ?_⟩
+  · have h := (C16_log_only_grows ringThenDead ops2).1
+    have e : (run ringThenDead).log
+        = [.traced 1 2 3, .traced 0 2 3, .destroyed 1, .destroyed 0, .freed 1] := by decide +kernel
+    rw [e] at h; exact h
+  · exact C16_released_stays_released (later_run_append ringThenDead ops2) 1
+      { strong := .uninit, weak := 0, links := none, value := none, freed := true, implicit := false }
+      (by decide +kernel) rfl
+
+/-- `C16_upgrade_after_death` instantiated at the third of the six operations: the state before it
+is later than the state after the collection, so the `upgrade` returns `None` -/
+example :
+    applyAct (run (ringThenDead ++ afterDeath.take 2)) [] [] (.upgrade 0)
+      = (run (ringThenDead ++ afterDeath.take 2)).emit (retBool false) :=
+  C16_upgrade_after_death (later_run_append ringThenDead (afterDeath.take 2)) 0
+    (by decide +kernel) (by decide +kernel) [] [] 0
+    { strong := .uninit, weak := 1, links := none, value := none, freed := false, implicit := false }
+    (by decide +kernel) (by decide +kernel)
+
+/-- `C16_new_is_fresh` instantiated at the first of the six operations: the new handle designates
+index 2, the first one past the two dead members -/
+example : (applyAct (run ringThenDead) [] [] .new).roots = [2] := by
+  have h := (C16_new_is_fresh (run ringThenDead) [] []).1
+  have e1 : (run ringThenDead).roots = [] := by decide +kernel
+  have e2 : (run ringThenDead).heap.length = 2 := by decide +kernel
+  rw [e1, e2] at h; exact h
 
 end Cactus
